@@ -303,9 +303,10 @@ def run(ctx):
             label="every pipeline run terminates; no stage is stuck "
             "(single-defect cells, liveness)")
     sens = []
-    # quick: one repaired leak and the two found by the latest extension of
-    # the response universe; thorough: every leak alone
-    leaks = ["ErrCodeInt", "RealBigInt", "ParamNamedElem"]
+    # quick: all pinned leaks together + the two leaks found by the latest
+    # extension of the response universe, each alone; thorough: every leak
+    # alone
+    leaks = ["RealBigInt", "ParamNamedElem"]
     if not quick:
         leaks = ["ErrCodeInt", "IntInf", "NullInArray", "ArraySizeInt",
                  "CimvalueRaw", "RetvalParamtypeKey", "PullEmptyResponse",
